@@ -206,7 +206,10 @@ def run_case(case):
             res.fail("C17/renew_address-does-not-return", "ID %d" % i)
             continue
         a, dur = r
-        if dur > timeout * 1000 * MS + 1500 * MS:
+        # "within the given timeout" is claimed on a loss-free medium only (with packet loss: termination); the
+        # timeout is tested between attempts, and one attempt (poll + up to 4 contacts x (225 ms + 2 lookups)) can
+        # overrun it, which the allowance covers
+        if not lossy and dur > timeout * 1000 * MS + 1500 * MS:
             res.fail("C17/renew_address-exceeds-timeout", "ID %d: %.0f ms with timeout %.1f s" % (i, dur / 1e6, timeout))
         if a is None:
             if not lossy:
